@@ -47,7 +47,7 @@ def tiny_leaves():
     }
 
 
-def plan(tier, seed, acts_extra=(), lvl2=True):
+def plan(tier, seed, acts_extra=(), lvl2=True, nonsq=False):
     L = catalog.leaves(seed, n_random=0)
     L.update(extra_leaves())
     rnd = catalog.random_leaves(seed, 6)
@@ -65,6 +65,11 @@ def plan(tier, seed, acts_extra=(), lvl2=True):
                      small=[tl[n] for n in ("T_sh", "T_dg", "T_tl")],
                      acts={"Kronecker", "BlockDiag", "Product", "Kronecker3", "BlockDiag3", "Product3", "linalg"}
                      | set(acts_extra), lvl=1, dim=9, ebound=12))
+    if nonsq:
+        # square trees assembled from non-square factors (Kronecker(2x3, 3x2), BlockDiag(1x3, 3x1), products, sums)
+        ns = [L[n] for n in ["D23", "D32", "D13", "D31", "D32c", "D22", "Dg2", "I2"]]
+        runs.append(dict(seeds=ns, operands=ns[:6], small=ops2[:2], acts={"Kronecker", "BlockDiag", "Product", "Sum",
+                                                                        "linalg"}, lvl=2, dim=6, ebound=12))
     if lvl2:
         if tier == "quick":
             s2 = [L[n] for n in ["D22s", "Dg2n", "I2", "Sc2n", "P2", "Sy22d", "Hc22d", "TL22", "D22c", "Sc2c", "Un22c",
